@@ -26,6 +26,8 @@ CONSTANTS Names,      \* sequence of asset names (the job list)
           Outcomes,   \* set of outcome values in tenths of a percentage point (comparator part)
           TwoSectionEnd, \* TRUE: AssetEnd as HTMLReport codes it - one critical section takes the asset's results, a second
                          \*       one (after sorting and logging) records its best result
+          Runs,          \* how many times Run is called with the SAME report object, one after the other (1 or 2)
+          ResetOnBegin,  \* TRUE (the code): AssetBegin starts the asset's entry afresh; FALSE: a variant that keeps an entry it finds
           StaleBest      \* TRUE: a variant that reads the list of best results in the FIRST section and writes "what it
                          \*       read + its own" in the second (a lost update when two AssetEnd calls overlap); FALSE = the code
 
@@ -38,37 +40,39 @@ VARIABLES phase,    \* "begin" | "run" | "end" | "over"
           results,  \* results[a]: sequence of strategy numbers written for asset a (the report's map entry)
           begun, ended,   \* sets of assets with AssetBegin / AssetEnd delivered
           best,     \* sequence of assets whose best result was recorded (HTMLReport.bestResults)
-          log       \* the protocol history (for the order properties)
+          log,      \* the protocol history of the current run (for the order properties)
+          run       \* number of the current run
 
-vars == <<phase, queue, wk, results, begun, ended, best, log>>
+vars == <<phase, queue, wk, results, begun, ended, best, log, run>>
 
 Idle == [pc |-> "take", a |-> "", s |-> 0, seen |-> <<>>]
 
 Init == /\ phase = "begin" /\ queue = Names /\ wk = [w \in Workers |-> Idle]
-        /\ results = [a \in NameSet |-> <<>>] /\ begun = {} /\ ended = {} /\ best = <<>> /\ log = <<>>
+        /\ results = [a \in NameSet |-> <<>>] /\ begun = {} /\ ended = {} /\ best = <<>> /\ log = <<>> /\ run = 1
 
-Begin == /\ phase = "begin" /\ phase' = "run" /\ log' = Append(log, <<"begin">>)
-         /\ UNCHANGED <<queue, wk, results, begun, ended, best>>
+\* report.Begin: (HTML) bestResults = make(...) - the list of best results starts afresh, the map of results stays
+Begin == /\ phase = "begin" /\ phase' = "run" /\ log' = Append(log, <<"begin">>) /\ best' = <<>>
+         /\ UNCHANGED <<queue, wk, results, begun, ended, run>>
 
 Take(w) ==
   /\ phase = "run" /\ wk[w].pc = "take"
   /\ IF queue = <<>> THEN wk' = [wk EXCEPT ![w].pc = "done"] /\ UNCHANGED queue
      ELSE wk' = [wk EXCEPT ![w] = [pc |-> "get", a |-> Head(queue), s |-> 0, seen |-> <<>>]] /\ queue' = Tail(queue)
-  /\ UNCHANGED <<phase, results, begun, ended, best, log>>
+  /\ UNCHANGED <<phase, results, begun, ended, best, log, run>>
 
 GetSince(w) ==
   /\ wk[w].pc = "get"
   /\ wk' = IF wk[w].a \in Missing THEN [wk EXCEPT ![w] = Idle] ELSE [wk EXCEPT ![w].pc = "abegin"]
-  /\ UNCHANGED <<phase, queue, results, begun, ended, best, log>>
+  /\ UNCHANGED <<phase, queue, results, begun, ended, best, log, run>>
 
 \* report.AssetBegin: results[name] = make(...)   (a write to the shared map)
 AssetBegin(w) ==
   /\ wk[w].pc = "abegin"
   /\ begun' = begun \cup {wk[w].a}
-  /\ results' = [results EXCEPT ![wk[w].a] = <<>>]
+  /\ results' = IF ResetOnBegin THEN [results EXCEPT ![wk[w].a] = <<>>] ELSE results
   /\ log' = Append(log, <<"assetbegin", wk[w].a>>)
   /\ wk' = [wk EXCEPT ![w].pc = IF NS > 0 THEN "write" ELSE "aend", ![w].s = 1]
-  /\ UNCHANGED <<phase, queue, ended, best>>
+  /\ UNCHANGED <<phase, queue, ended, best, run>>
 
 \* report.Write: compute the result (local), then append it to results[name]  (read-modify-write of the shared map)
 Write(w) ==
@@ -79,13 +83,13 @@ Write(w) ==
           /\ wk' = [wk EXCEPT ![w].pc = IF wk[w].s < NS THEN "write" ELSE "aend", ![w].s = wk[w].s + 1]
      ELSE /\ wk' = [wk EXCEPT ![w].pc = "write2"]
           /\ UNCHANGED <<results, log>>
-  /\ UNCHANGED <<phase, queue, begun, ended, best>>
+  /\ UNCHANGED <<phase, queue, begun, ended, best, run>>
 Write2(w) ==
   /\ wk[w].pc = "write2"
   /\ results' = [results EXCEPT ![wk[w].a] = Append(@, wk[w].s)]
   /\ log' = Append(log, <<"write", wk[w].a, wk[w].s>>)
   /\ wk' = [wk EXCEPT ![w].pc = IF wk[w].s < NS THEN "write" ELSE "aend", ![w].s = wk[w].s + 1]
-  /\ UNCHANGED <<phase, queue, begun, ended, best>>
+  /\ UNCHANGED <<phase, queue, begun, ended, best, run>>
 
 \* report.AssetEnd: (HTML) delete the map entry, sort, append the best result to bestResults
 AssetEnd(w) ==
@@ -96,20 +100,26 @@ AssetEnd(w) ==
           /\ wk' = [wk EXCEPT ![w] = Idle]
      ELSE \* first section: the asset's results are taken out of the map (and, in the StaleBest variant, the list is read)
           /\ wk' = [wk EXCEPT ![w].pc = "aend2", ![w].seen = best] /\ UNCHANGED <<ended, best, log>>
-  /\ UNCHANGED <<phase, queue, results, begun>>
+  /\ UNCHANGED <<phase, queue, results, begun, run>>
 AssetEnd2(w) ==
   /\ wk[w].pc = "aend2"
   /\ ended' = ended \cup {wk[w].a}
   /\ best' = IF StaleBest THEN Append(wk[w].seen, wk[w].a) ELSE Append(best, wk[w].a)
   /\ log' = Append(log, <<"assetend", wk[w].a>>)
   /\ wk' = [wk EXCEPT ![w] = Idle]
-  /\ UNCHANGED <<phase, queue, results, begun>>
+  /\ UNCHANGED <<phase, queue, results, begun, run>>
 
 End == /\ phase = "run" /\ \A w \in Workers : wk[w].pc = "done"
        /\ phase' = "over" /\ log' = Append(log, <<"end">>)
-       /\ UNCHANGED <<queue, wk, results, begun, ended, best>>
+       /\ UNCHANGED <<queue, wk, results, begun, ended, best, run>>
 
-Next == Begin \/ End \/ \E w \in Workers : Take(w) \/ GetSince(w) \/ AssetBegin(w) \/ Write(w) \/ Write2(w) \/ AssetEnd(w) \/ AssetEnd2(w)
+\* the caller runs the backtest again with the same report object (the report keeps whatever it holds)
+Again == /\ phase = "over" /\ run < Runs
+         /\ phase' = "begin" /\ run' = run + 1 /\ queue' = Names /\ wk' = [w \in Workers |-> Idle]
+         /\ begun' = {} /\ ended' = {} /\ log' = <<>>
+         /\ UNCHANGED <<results, best>>
+
+Next == Begin \/ End \/ Again \/ \E w \in Workers : Take(w) \/ GetSince(w) \/ AssetBegin(w) \/ Write(w) \/ Write2(w) \/ AssetEnd(w) \/ AssetEnd2(w)
 Spec == Init /\ [][Next]_vars
 FairSpec == Spec /\ WF_vars(Next)
 
@@ -134,7 +144,7 @@ ProtocolOrder == /\ (log # <<>> => log[1] = <<"begin">>)
                       /\ (log[i] = <<"end">> => i = Len(log) /\ \A a \in Present : Has(<<"assetend", a>>))
 \* the set of results does not depend on W or the schedule: in the final state it is a function of the inputs
 SameForAnyW == Over => (begun = Present /\ ended = Present /\ {best[i] : i \in 1..Len(best)} = Present /\ Len(best) = Cardinality(Present))
-Termination == <>Over
+Termination == <>(Over /\ run = Runs)
 
 \* workers that are about to perform / are inside an unsynchronised mutation of the report's shared state
 RacePcs == {"abegin", "write2", "aend2"}      \* (aend2 under a lock is a critical section of its own, not a race)
